@@ -141,7 +141,8 @@ class Lean:
         if name in ("SingleAxisFiniteDifference", "FiniteDifference") and real:
             sh = c["shape"]
             nd = len(sh)
-            axes = [c["axis"] % nd] if name == "SingleAxisFiniteDifference" else [a % nd for a in ([c["axes"]] if isinstance(c["axes"], int) else (c["axes"] if c["axes"] is not None else range(nd)))]
+            raw = [c["axis"]] if name == "SingleAxisFiniteDifference" else ([c["axes"]] if isinstance(c["axes"], int) else c["axes"])
+            axes = self.m.call("normaxes", nd=nd, axes=raw)  # normalize_axes of the model (None = all axes, negative from the end)
             xs = self.xs(_prod(sh))
             r = self.m.call("fdnd", shape=sh, axes=axes, prepend=c["prepend"], append=c["append"], circular=c["circular"], xs=[fs2b(x) for x in xs])
             return _mat(r["mat"]), (xs, [np.array(b2fs(y)) for y in r["ys"]])
@@ -877,9 +878,26 @@ def malformed(ctx, lean):
         ctx.count("malformed:fd-circular-with-extension")
         if impl != mdl:
             ctx.disagree("linops.fd.reject", {"class": "SingleAxisFiniteDifference", "config": kw}, impl, mdl)
-    for axes, ash in [([0], [4, 4]), ([0, 1], [4])]:
+    from scico.numpy.util import normalize_axes
+
+    for axes in [(-5,), (-3,), (0, -2), (0, 0), (2,), (), (0, -1), (-2, -1), None, (1,)]:
         try:
-            linop.DFT((4, 4), axes=tuple(axes), axes_shape=tuple(ash))
+            impl = [int(a) for a in normalize_axes(axes, (2, 3))]
+        except Exception as e:  # noqa: BLE001
+            impl = common.err_kind(e)
+        try:
+            mdl = lean.m.call("normaxes", nd=2, axes=None if axes is None else list(axes))
+        except ModelErr as e:
+            mdl = e.kind
+        ctx.case({"malformed": {"normalize_axes": None if axes is None else list(axes)}}, None)
+        ctx.count("malformed:normalize-axes")
+        # compared: accepted / rejected, and the normalised axes when accepted (not the kind or text of the error)
+        if isinstance(impl, str) != isinstance(mdl, str) or (not isinstance(impl, str) and impl != mdl):
+            ctx.disagree("linops.normalize_axes", {"class": "FiniteDifference", "check": "axes", "config": {"shape": [2, 3], "axes": None if axes is None else list(axes), "prepend": None, "append": None, "circular": False, "dtype": "float64"}},
+                         impl, mdl, oracle=_axes_oracle)
+    for axes, ash in [([0], [4, 4]), ([0, 1], [4]), ([-3], [4]), (None, [4, 4, 4])]:
+        try:
+            linop.DFT((4, 4), axes=None if axes is None else tuple(axes), axes_shape=tuple(ash))
             impl = "ok"
         except Exception as e:  # noqa: BLE001
             impl = common.err_kind(e)
@@ -892,6 +910,26 @@ def malformed(ctx, lean):
         ctx.count("malformed:dft-axes-length")
         if (impl == "ok") != (mdl == "ok"):
             ctx.disagree("linops.DFT.reject", {"class": "DFT", "config": {"axes": axes, "axes_shape": ash}}, impl, mdl)
+
+
+def _axes_oracle(case):
+    """an axes argument outside [-ndim, ndim) (or repeated) must be rejected; if it is accepted the operator's declared
+    output shape and the array it returns are compared"""
+    import opgrid
+
+    c = case["config"]
+    nd = len(c["shape"])
+    ax = c["axes"]
+    bad = ax is not None and (len(ax) == 0 or any(not (-nd <= a < nd) for a in ax) or len({a % nd for a in ax}) != len(ax))
+    if not bad:
+        return None
+    try:
+        op = opgrid.build("FiniteDifference", c)
+    except Exception:  # noqa: BLE001
+        return None
+    y = op(np.zeros(c["shape"]))
+    return {"class": "FiniteDifference", "config": c, "accepted_invalid_axes": ax, "declared_output_shape": str(op.output_shape),
+            "returned_shape": str(getattr(y, "shape", None))}
 
 
 KNOWN_WITNESSES = {
@@ -932,7 +970,7 @@ def replay(ctx, model, case):
     common.setup_scico()
     warnings.simplefilter("ignore")
     c = case.get("case", case)
-    r = _inv_oracle(c) if c.get("check") == "inverse" else make_oracle()(c)
+    r = _inv_oracle(c) if c.get("check") == "inverse" else (_axes_oracle(c) if c.get("check") == "axes" else make_oracle()(c))
     print("replay:", "property FAILS on implementation:" if r else "no failure at this input", json.dumps(r)[:600] if r else "")
     if r:
         ctx.violation({"kind": "failing-input", "case": c, "failing": r}, True, "replay")
